@@ -339,7 +339,7 @@ impl World {
             ctx.label("sock:udp");
         }
         // ICMP: ident, udp-port and tcp-port forms
-        let mut mk_icmp = |ep: icmp::Endpoint, node: &mut Node| -> SocketHandle {
+        let mk_icmp = |ep: icmp::Endpoint, node: &mut Node| -> SocketHandle {
             let mut s = icmp::Socket::new(pbuf(4, 1024, icmp::PacketMetadata::EMPTY), pbuf(2, 512, icmp::PacketMetadata::EMPTY));
             s.bind(ep).expect("bind");
             node.sockets.add(s)
@@ -436,10 +436,17 @@ impl World {
         };
         if self.node.dev.hard_cap_hit {
             self.node.dev.hard_cap_hit = false;
-            report(ctx, Fail::new(
-                "poll:egress-does-not-terminate",
-                format!("one Interface::poll handled more than {} frames although no socket has more than 2 KiB queued: the egress loop does not terminate on its own", HARD_CAP),
-            ))?;
+            // what the flood consists of names the root cause
+            let kind = frames.last().map(|f| observe(&mut self.env, f).seen.name()).unwrap_or("nothing");
+            report(
+                ctx,
+                Fail::new(
+                    format!("poll:egress-does-not-terminate:{}", kind),
+                    format!("one Interface::poll handled more than {} frames (the last one emitted: {}) although no socket has more than 2 KiB queued: the egress loop of Interface::poll does not terminate on its own (medium {}, virtual time {} ms)", HARD_CAP, kind, self.env.own.med.name(), self.now),
+                ),
+            )?;
+            ctx.label("ended-by-known-egress-loop");
+            return Ok(None);
         }
         let mut out = vec![];
         for f in frames {
